@@ -350,3 +350,23 @@ package interpreter
 //@     assert [step-new] forallstr(a, c, known(st, a, c) && !athead(known(st, a, c)) ==> (a == posting.Source || a == posting.Destination) && c == posting.Asset)
 //@     assert [step-others] forallstr(a, c, known(st, a, c) && st.CachedBalances[a][c] != srcBalance && st.CachedBalances[a][c] != destBalance ==> bal(st, a, c) == athead(bal(st, a, c)))
 //@     assert [apply-step] {C01,C09} forallstr(a, c, bal(st, a, c) == athead(bal(st, a, c)) - ite(a == posting.Source && c == posting.Asset, val(posting.Amount), 0) + ite(a == posting.Destination && c == posting.Asset, val(posting.Amount), 0))
+
+// `save [A n] from @x` lowers the balance later statements see, never below zero and never raising a
+// balance that is already negative; `save [A *]` hides all of it.  No posting.
+//@ func (*programState).runSaveStatement
+//@   requires [wf] wf(saveStatement)
+//@   requires [state] varsOk(st) && cacheOk(st)
+//@   let sv = saveStatement.SentValue
+//@   let isAll = typeis(sv, *parser.SentValueAll)
+//@   let mon = as(evalOf(st, as(sv, *parser.SentValueLiteral).Monetary), Monetary)
+//@   let asset = ite(isAll, as(evalOf(st, as(sv, *parser.SentValueAll).Asset), Asset), mon.Asset)
+//@   let x = as(evalOf(st, saveStatement.Amount), AccountAddress)
+//@   ensures [no-posting] {C08} err == nil ==> len(result) == 0
+//@   ensures [reserve-all] {C01,C08} err == nil && isAll ==> bal(st, x, asset) == min(old(bal(st, x, asset)), 0)
+//@   ensures [reserve] {C01,C08} err == nil && !isAll ==> bal(st, x, asset) == ite(old(bal(st, x, asset)) <= 0, old(bal(st, x, asset)), max(0, old(bal(st, x, asset)) - val(mon.Amount)))
+//@   ensures [frame] {C08,C09} err == nil ==> forallstr(a, c, (a != x || c != asset) ==> bal(st, a, c) == old(bal(st, a, c)))
+//@   ensures [negative-rejected] {C08,C12} !isAll && evalErr(st, as(sv, *parser.SentValueLiteral).Monetary) == nil && typeis(evalOf(st, as(sv, *parser.SentValueLiteral).Monetary), Monetary) && evalErr(st, saveStatement.Amount) == nil && typeis(evalOf(st, saveStatement.Amount), AccountAddress) && val(mon.Amount) < 0 ==> typeis(err, NegativeAmountErr)
+//@   ensures [error-atomic] {C08,C12} err != nil ==> forallstr(a, c, bal(st, a, c) == old(bal(st, a, c)))
+//@   ensures [queues-untouched] {C09} st.Senders == old(st.Senders) && st.Receivers == old(st.Receivers)
+//@   ensures [cache-ok] cacheOk(st)
+//@   modifies heap(bigint), entries(st.CachedBalances), allentries("map[string]*math/big.Int")
